@@ -106,7 +106,7 @@ theorem push_no_panic (ext : Ext) (he : ExtNP ext) (b : B) (hb : NPInv b) (x : S
 
 /-- **A raw key/value call stream that does not alternate, into a Map builder, is an ERROR** (two keys in a row, a
 value without a key, a map ending with a key pending): not a panic (`push_no_panic`) and not accepted
-(`Build.push_map_raw_ok_alternating`; repo fix bcc3416).  Before the fix such a stream was accepted, `to_marrow`
+(`Build.push_map_raw_ok_alternating`; repo fix eafdf15).  Before the fix such a stream was accepted, `to_marrow`
 returned a Map array with keys and values of different lengths and `to_arrow2` unwound inside marrow's conversion
 (finding C16-map-key-value-alternation, found by the thorough tier of C19). -/
 theorem map_non_alternating_is_error (ext : Ext) (he : ExtNP ext) (p : String) (mm : MapMeta) (v : Validity)
